@@ -120,7 +120,9 @@ func rewriteSites(p *dsl.Program) []rewriteSite {
 				add("doc string present <-> absent", where, func(q *dsl.Program) {
 					x := fieldAt(q, pth)
 					if x.Doc == "" {
-						x.Doc = "some documentation"
+						// free text that spells words of the language: what decides a field's meaning must read its
+						// type, not the text of the whole declaration
+						x.Doc = "was zchar[8] before v2; repeat string u16 char[] match root packet @lengthOf(x) @leftPad('0')"
 					} else {
 						x.Doc = ""
 					}
